@@ -4,6 +4,7 @@
 package core
 
 import (
+	"crypto/sha256"
 	"encoding/json"
 	"fmt"
 	"runtime/debug"
@@ -59,6 +60,7 @@ type Info struct {
 
 // Stats are the measured counters of a batch.
 type Stats struct {
+	Digest   []byte // running SHA-256 over the event-log hashes of every schedule executed
 	C        map[string]uint64
 	Distinct map[uint64]struct{}
 	Samples  []json.RawMessage
@@ -147,7 +149,10 @@ func (c *Ctx) End(s *simrt.Sim) {
 	if c.Record {
 		c.Traces = append(c.Traces, s.Trace)
 	}
-	c.Hashes = append(c.Hashes, s.LogHash())
+	lh := s.LogHash()
+	c.Hashes = append(c.Hashes, lh)
+	d := sha256.Sum256(append(append([]byte{}, c.St.Digest...), lh...))
+	c.St.Digest = d[:]
 	if c.Verbose {
 		c.Texts = append(c.Texts, s.Text)
 	}
@@ -229,7 +234,7 @@ func HotLibFrame(stack string) string {
 	best, bestN := "?", 0
 	for _, ln := range strings.Split(stack, "\n") {
 		ln = strings.TrimSpace(ln)
-		if !strings.HasPrefix(ln, "github.com/hashicorp/go-argmapper") || strings.Contains(ln, "verifshim") {
+		if !strings.HasPrefix(ln, "github.com/hashicorp/go-argmapper") || strings.Contains(ln, "verifshim") || strings.Contains(ln, ".go:") {
 			continue
 		}
 		f := TopLibFrame(ln)
@@ -248,7 +253,7 @@ func TopLibFrame(stack string) string {
 		if !strings.HasPrefix(ln, "github.com/hashicorp/go-argmapper") {
 			continue
 		}
-		if strings.Contains(ln, "verifshim") {
+		if strings.Contains(ln, "verifshim") || strings.Contains(ln, ".go:") {
 			continue
 		}
 		// github.com/hashicorp/go-argmapper.(*Func).reachTarget(0x...)
